@@ -13,7 +13,8 @@ RULE = ("pairs of real projects (0-4 jobs each over 6 state points, overlapping/
         "filecmp.DEFAULT_IGNORES; names matching an exclude pattern only as a prefix; job and project documents "
         "overlapping / nested / mixed-type / conflicting) x options (5 file strategies, 6 document strategies, "
         "recursive, 10 exclude settings, selection by id / job, check_schema) x 4 entry points; explicit mtimes; "
-        "every call made twice; distinct = distinct (layout, options, entry point); non-trivial = something to "
+        "every call made twice; plus 12 'live destination' scenarios (another process completes a write of destination-"
+        "only keys while the document is being merged; oracle only); distinct = distinct (layout, options, entry point); non-trivial = something to "
         "synchronise (>=1 selected source job or differing project documents)")
 MODELLED = ["filecmp.dircmp / filecmp.cmp (listing order, (type,size,mtime) signature rule) — re-stated in Lean",
             "shutil.copy / copytree (bytes copied, fresh mtime) — re-stated in Lean",
